@@ -31,8 +31,11 @@ def lake_lock():
 
 def translate(only=None):
     import extract
+    import gen_lean_index
     with lake_lock():
-        return extract.run(REPO, os.path.join(LEAN_DIR, "OptiVerif", "Gen"), only)
+        st = extract.run(REPO, os.path.join(LEAN_DIR, "OptiVerif", "Gen"), only)
+        gen_lean_index.main()
+        return st
 
 
 def strip_comments(src: str) -> str:
